@@ -21,7 +21,7 @@ MANIFEST = dict(
     note="Modelled, not verified: dict insertion order; f-string formatting of UserString in the attribute writer.",
     technique="Lean 4 proof (list induction; decide +kernel table side conditions) + differential correspondence",
 )
-PROP_FILES = ["HtmlVerif/Props/C03.lean"]
+PROP_FILES = ["HtmlVerif/Props/C03.lean", "HtmlVerif/Props/SrcEscape.lean", "HtmlVerif/Props/SrcAttrs.lean"]
 ALPHA = "\"'&<>\r\na"
 
 
@@ -95,6 +95,7 @@ def run(tier: str) -> int:
     special = {"26", "3c", "3e", "22", "27", "d", "a"}
     for l, im in zip(lines, impl):
         ck.add(l, im, nontrivial=bool(special & set(l.split(" ", 2)[2].split("."))), tag="escape")
+    ck.add_src(['html_escape', 'normalize_attr_value', 'TagAttrDict_update', 'TagAttrDict_setitem', 'add'])
     ck.correspond(holds=True)
     # stored attribute values in every tag position: marker substitution
     fns = gen.fn_catalogue(ck.proof.translate_info)
